@@ -33,7 +33,10 @@ type c20Reg struct {
 var c20CondTexts = []string{"a = :b", "b = :a", " a = :b ", "a  =  :b", "A = :b", "a = :bb", "a = :b AND b = :a", "b = :a AND a = :b",
 	// requests only: the registered text with characters that are spaces for Unicode but not for the expression
 	// language (no-break space, em space, vertical tab, form feed, next line) - other texts, no registration answers
-	"a\u00a0=\u00a0:b", "\u2003a = :b", "a\v= :b", "a = :b\f", "a\u0085= :b"}
+	"a\u00a0=\u00a0:b", "\u2003a = :b", "a\v= :b", "a = :b\f", "a\u0085= :b",
+	// requests only: texts with #name placeholders (ExpressionAttributeNames {"#al": "a", "#bl": "b"}) that turn into
+	// a registered text when the placeholder is replaced by its name - they are OTHER texts, no registration answers
+	"#al = :b", "#bl = :a", "#al = :b AND #bl = :a"}
 
 // keyword texts in two letter cases: different texts (a registration under one never fires for the other). The
 // built-in interpreter refuses the lower-case forms, so without a callback such a request may also be rejected
@@ -52,7 +55,10 @@ func c20LowerKeyword(text string) bool {
 	}
 	return false
 }
-var c20UpdTexts = []string{"SET x = :y", "SET y = :x", " SET x = :y", "SET  x = :y", "set x = :y"}
+var c20UpdTexts = []string{"SET x = :y", "SET y = :x", " SET x = :y", "SET  x = :y", "set x = :y", "SET #xl = :y"}
+
+// c20Names are the ExpressionAttributeNames a request supplies for the placeholders its text uses.
+var c20Names = map[string]string{"#al": "a", "#bl": "b", "#xl": "x"}
 
 func c20Pool() []c20Reg {
 	out := []c20Reg{}
@@ -347,6 +353,15 @@ func (p *c20) runSeq(x *res, adapter string, regs []int, reqs []c20Req, nativeOn
 					values[t] = val.Str("zz")
 				}
 			}
+			var names map[string]string
+			for _, t := range tokenize(req.text) {
+				if n, ok := c20Names[t]; ok {
+					if names == nil {
+						names = map[string]string{}
+					}
+					names[t] = n
+				}
+			}
 			var op adapt.Op
 			switch req.kind {
 			case "key":
@@ -360,6 +375,7 @@ func (p *c20) runSeq(x *res, adapter string, regs []int, reqs []c20Req, nativeOn
 			case "update":
 				op = adapt.Op{Kind: adapt.OpUpdate, Table: req.table, Key: val.Item{"h": val.Str("k")}, Update: req.text, Values: values}
 			}
+			op.Names = names
 			ctx.Trace("%s native=%v after=%v regs=%v %s", adapter, nativeOn, installAfterCreate, regs, op.String())
 			got := cl.Do(op)
 			x.r.Evals++
